@@ -222,4 +222,92 @@ theorem newInteractive_console_inter (w : W) (client : Nat) (h : (slots w).headD
   simp only [Bool.true_and, h', Bool.false_eq_true, if_false]
   simp [setInter]
 
+theorem findIn_mapAll (g : Conn → Conn) (hg : ∀ c, (g c).id = c.id) : ∀ (l : List (Option Conn)) (id : Nat),
+    findIn (l.map (fun s => s.map g)) id = (findIn l id).map g := by
+  intro l id
+  induction l with
+  | nil => rfl
+  | cons x xs ih =>
+    cases x with
+    | none => rw [List.map_cons]; show findIn (none :: _) id = _; rw [findIn_none, findIn_none, ih]
+    | some c =>
+      rw [List.map_cons]
+      show findIn (some (g c) :: _) id = _
+      by_cases h : c.id = id
+      · rw [findIn_eq _ _ _ (by rw [hg]; exact h), findIn_eq _ _ _ h]; rfl
+      · rw [findIn_ne _ _ _ (by rw [hg]; exact h), findIn_ne _ _ _ h, ih]
+
+/-- granting HAS_CMD_TURN to every connection -/
+theorem mapAll_step (w : W) (g : Conn → Conn) (hg : ∀ c, (g c).id = c.id)
+    (hc : ∀ c, c.closing = true → (g c).closing = true) :
+    Step w { w with users := w.users.map (fun l => l.map (fun s => s.map g)) } := by
+  intro i
+  have hf : ∀ id, findConn { w with users := w.users.map (fun l => l.map (fun s => s.map g)) } id =
+      (findConn w id).map g := by
+    intro id
+    unfold findConn slots
+    cases h : w.users with
+    | none => rfl
+    | some l => exact findIn_mapAll g hg l id
+  have hu : ∀ l', (w.users.map (fun l => l.map (fun s => s.map g))) = some l' →
+      ∃ l, w.users = some l ∧ l'.length = l.length := by
+    intro l' h
+    cases hw : w.users with
+    | none => simp [hw] at h
+    | some l => simp [hw] at h; exact ⟨l, rfl, by rw [← h]; simp⟩
+  refine ⟨⟨i.crashed, i.inError, i.inMeh, ?_, i.inj, ?_, ?_, ?_, ?_⟩, ?_, fun _ _ _ _ _ h => h, ?_, rfl, rfl,
+    TrExt.of_eq rfl⟩
+  · intro o id ho
+    rw [hf]
+    have := i.live o id ho
+    cases h : findConn w id with
+    | none => simp [h] at this
+    | some c => rfl
+  · intro l' h
+    obtain ⟨l, hl, e⟩ := hu l' h
+    rw [e]; exact i.len l hl
+  · intro l' h
+    obtain ⟨l, hl, e⟩ := hu l' h
+    rw [e]; exact i.cur l hl
+  · intro h
+    apply i.cur0
+    cases hw : w.users with
+    | none => rfl
+    | some l => simp [hw] at h
+  · intro id hid
+    rw [hf, i.bound id hid]; rfl
+  · intro id c hcn hcl
+    rw [hf, hcn]
+    exact ⟨_, rfl, hc c hcl⟩
+  · show (w.users.map _).map List.length = _
+    cases hw : w.users with
+    | none => rfl
+    | some l => simp
+
+theorem mapAll_step' (w : W) (g : Conn → Conn) (hg : ∀ c, (g c).id = c.id)
+    (hc : ∀ c, c.closing = true → (g c).closing = true) : Step w (mapAll w g) := mapAll_step w g hg hc
+
+theorem snoopLink_id (me : Oid) (idy : Nat) (c : Conn) : (snoopLink me idy c).id = c.id := by
+  unfold snoopLink; split <;> (try split) <;> rfl
+theorem snoopLink_closing (me : Oid) (idy : Nat) (c : Conn) (h : c.closing = true) :
+    (snoopLink me idy c).closing = true := by
+  unfold snoopLink; split <;> (try split) <;> exact h
+theorem snoopUnlink_id (o : Oid) (c : Conn) : (snoopUnlink o c).id = c.id := by
+  unfold snoopUnlink; split <;> rfl
+theorem snoopUnlink_closing (o : Oid) (c : Conn) (h : c.closing = true) : (snoopUnlink o c).closing = true := by
+  unfold snoopUnlink; split <;> exact h
+
+theorem setSnoop_step (w : W) (me you : Oid) : Step w (setSnoop w me you) := by
+  unfold setSnoop
+  split
+  · exact Step.refl w
+  · split
+    · split
+      · exact Step.refl w
+      · exact mapAll_step w _ (snoopLink_id _ _) (snoopLink_closing _ _)
+    · exact Step.refl w
+
+theorem clearSnoopers_step (w : W) (o : Oid) : Step w (clearSnoopers w o) :=
+  mapAll_step w _ (snoopUnlink_id o) (snoopUnlink_closing o)
+
 end NV.C09
